@@ -75,6 +75,7 @@ type VC struct {
 	funcsDone  []string
 	specErrors []string
 	loopHeads  map[*ssa.Function]map[*ssa.BasicBlock]*loopInfo
+	missingFuncs []string
 	canaries   map[string][]*Obligation
 	canaryOrder []string
 }
